@@ -338,21 +338,25 @@ pub const CONNACK_PLAIN: [u8; 5] = [0x20, 0x03, 0x00, 0x00, 0x00];
 /// Feed `bytes` to a connected session that has one QoS 1 publish (id 1) in flight.
 /// `frag`: false = the transport hands over as much as the client asks for, true = one byte per read.
 pub fn c08_after_connack(bytes: &[u8], frag: bool) -> CaseOut {
-    let out = c08_after_connack_once(bytes, frag);
+    c08_after_connack_rx(bytes, frag, C08_RX)
+}
+
+pub fn c08_after_connack_rx(bytes: &[u8], frag: bool, rx_size: usize) -> CaseOut {
+    let out = c08_after_connack_once(bytes, frag, rx_size);
     // A non-canonical remaining length makes the client mis-size the packet; it notices when the
     // bytes it is waiting for have arrived. Give it those bytes before calling that "accepted".
     if out.viol.iter().any(|(s, _)| s.starts_with("C08:malformed-accepted:BadVarint-Blocked")) {
         let mut padded = bytes.to_vec();
-        padded.extend_from_slice(&[0u8; C08_RX]);
-        return c08_after_connack_once(&padded, frag);
+        padded.extend_from_slice(&vec![0u8; rx_size]);
+        return c08_after_connack_once(&padded, frag, rx_size);
     }
     out
 }
 
-fn c08_after_connack_once(bytes: &[u8], frag: bool) -> CaseOut {
+fn c08_after_connack_once(bytes: &[u8], frag: bool, rx_size: usize) -> CaseOut {
     guarded("C08", || {
-        let bench = Bench::new(true, BrokerCfg::default(), C08_RX);
-        let mut rx = [0u8; C08_RX];
+        let bench = Bench::new(true, BrokerCfg::default(), rx_size);
+        let mut rx = vec![0u8; rx_size];
         let mut tx = [0u8; 96];
         let cfg = ConfigBuilder::new(Buffers::new(&mut rx, &mut tx))
             .client_id("mcx")
@@ -380,7 +384,7 @@ fn c08_after_connack_once(bytes: &[u8], frag: bool) -> CaseOut {
         let mut guard = 0;
         loop {
             guard += 1;
-            if guard > 200 {
+            if guard > 200 + 2 * bytes.len() {
                 evs.push(Ev::Err(Res::Other));
                 break;
             }
@@ -412,7 +416,7 @@ fn c08_after_connack_once(bytes: &[u8], frag: bool) -> CaseOut {
         let pending = conn.is_pending(&op);
         let complete = conn.is_complete(&op);
         let written = bench.written(id)[setup_written..].to_vec();
-        let exp = expect_after_connack(bytes, C08_RX);
+        let exp = expect_after_connack(bytes, rx_size);
         let mut viol: Vec<(String, String)> = Vec::new();
         let mut flag = |rule: &str, ctx: String, detail: String| {
             viol.push((format!("C08:{}:{}", rule, ctx), format!("{} [input {}]", detail, mr::hex(bytes))))
@@ -860,6 +864,111 @@ pub fn c08_grammar() -> Vec<SPacket> {
     v
 }
 
+/// Packets with boundary values that need a receive buffer of a few hundred bytes.
+pub fn c08_wide_grammar() -> Vec<SPacket> {
+    let mut v = Vec::new();
+    let s = |n: usize| vec![b'x'; n];
+    let pr = |id: u8, val: PVal| Prop { id, val };
+    let sets: Vec<Vec<Prop>> = vec![
+        vec![pr(0x01, PVal::Byte(0))],
+        vec![pr(0x02, PVal::U32(0))],
+        vec![pr(0x02, PVal::U32(u32::MAX))],
+        vec![pr(0x03, PVal::Str(vec![]))],
+        vec![pr(0x03, PVal::Str(s(127)))],
+        vec![pr(0x03, PVal::Str(s(128)))],
+        vec![pr(0x03, PVal::Str("a\u{e9}\u{20ac}\u{1f600}".as_bytes().to_vec()))],
+        vec![pr(0x08, PVal::Str(s(1)))],
+        vec![pr(0x08, PVal::Str(s(128)))],
+        vec![pr(0x09, PVal::Bin(vec![]))],
+        vec![pr(0x09, PVal::Bin((0..=255u8).step_by(2).collect()))],
+        vec![pr(0x0B, PVal::Var(127))],
+        vec![pr(0x0B, PVal::Var(128))],
+        vec![pr(0x0B, PVal::Var(16_383))],
+        vec![pr(0x0B, PVal::Var(16_384))],
+        vec![pr(0x0B, PVal::Var(2_097_151))],
+        vec![pr(0x0B, PVal::Var(2_097_152))],
+        vec![pr(0x0B, PVal::Var(33_554_431))],
+        vec![pr(0x0B, PVal::Var(33_554_432))],
+        vec![pr(0x0B, PVal::Var(268_435_455))],
+        vec![pr(0x0B, PVal::Var(1)), pr(0x0B, PVal::Var(268_435_455)), pr(0x0B, PVal::Var(16_384))],
+        vec![pr(0x26, PVal::Pair(vec![], vec![]))],
+        vec![pr(0x26, PVal::Pair(s(64), s(64)))],
+        vec![
+            pr(0x01, PVal::Byte(1)),
+            pr(0x02, PVal::U32(1)),
+            pr(0x03, PVal::Str(s(3))),
+            pr(0x08, PVal::Str(s(3))),
+            pr(0x09, PVal::Bin(vec![0])),
+            pr(0x0B, PVal::Var(300)),
+            pr(0x26, PVal::Pair(s(1), s(1))),
+            pr(0x26, PVal::Pair(s(1), s(2))),
+        ],
+    ];
+    for props in &sets {
+        for qos in [0u8, 2] {
+            v.push(SPacket::Publish {
+                dup: false,
+                qos,
+                retain: qos == 2,
+                topic: b"a/b".to_vec(),
+                pid: if qos > 0 { Some(515) } else { None },
+                props: props.clone(),
+                payload: vec![0x55, 0x00],
+            });
+        }
+    }
+    for tlen in [1usize, 127, 128, 200] {
+        for plen in [0usize, 127, 128, 250] {
+            if tlen + plen > 290 {
+                continue;
+            }
+            v.push(SPacket::Publish {
+                dup: false,
+                qos: 1,
+                retain: false,
+                topic: s(tlen),
+                pid: Some(2),
+                props: vec![],
+                payload: vec![0xA5; plen],
+            });
+        }
+    }
+    // exactly the buffer size, one less, one more (QoS 0, topic "t", no properties)
+    for total in [299usize, 300, 301] {
+        // fixed header 3 bytes (two-byte remaining length) + 2 + 1 topic + 1 property length
+        let plen = total - 3 - 2 - 1 - 1;
+        v.push(SPacket::Publish {
+            dup: false,
+            qos: 0,
+            retain: false,
+            topic: b"t".to_vec(),
+            pid: None,
+            props: vec![],
+            payload: vec![0x5A; plen],
+        });
+    }
+    for kind in [AckKind::PubAck, AckKind::PubRec, AckKind::PubComp] {
+        v.push(SPacket::Ack {
+            kind,
+            pid: 1,
+            reason: 0,
+            props: vec![pr(0x1F, PVal::Str(s(200)))],
+            form: 2,
+        });
+    }
+    v.push(SPacket::SubAck {
+        pid: 1,
+        props: vec![pr(0x1F, PVal::Str(s(128))), pr(0x26, PVal::Pair(s(20), s(20)))],
+        codes: vec![0, 1, 2, 0x80, 0x87, 0x97],
+    });
+    v.push(SPacket::Disconnect {
+        reason: 0x9C,
+        props: vec![pr(0x1F, PVal::Str(s(100))), pr(0x1C, PVal::Str(s(100)))],
+        form: 2,
+    });
+    v
+}
+
 pub fn c08_connack_grammar() -> Vec<SPacket> {
     let mut v = Vec::new();
     let single: Vec<Prop> = vec![
@@ -1127,6 +1236,26 @@ pub fn c08(tier: Tier, caps: &Caps) -> Vec<FamilyReport> {
         &|i| c08_after_connack(&vcases[(i / 2) as usize], i % 2 == 1),
         &|i| json!({"phase": "after-connack", "bytes": mr::hex(&vcases[(i / 2) as usize]), "fragmented": i % 2 == 1}),
     ));
+    // boundary values that do not fit the small receive buffer: a 300-byte buffer
+    const WIDE_RX: usize = 300;
+    let mut wide: Vec<Vec<u8>> = Vec::new();
+    for p in c08_wide_grammar() {
+        let b = p.encode();
+        if tier == Tier::Quick {
+            wide.push(b);
+        } else {
+            wide.extend(mutations(&b));
+        }
+    }
+    out.push(sweep(
+        "C08-boundary-values-in-a-300-byte-buffer",
+        "C08",
+        wide.len() as u64 * 2,
+        caps,
+        json!({"grammar": "PUBLISH with every property a broker may attach at its boundary values (0 / maximum integers, empty / 1 / 127 / 128-byte strings and binary data, 1..4-byte UTF-8 characters, empty user-property key and value, several subscription identifiers), topics of 1, 127, 128 and 200 bytes, payloads of 0, 127, 128 and 250 bytes, packets of exactly the buffer size and one byte more; acknowledgements with long reason strings; thorough: every single-byte substitution, truncation and one trailing byte of each; each whole and byte-by-byte", "rx": WIDE_RX}),
+        &|i| c08_after_connack_rx(&wide[(i / 2) as usize], i % 2 == 1, WIDE_RX),
+        &|i| json!({"phase": "after-connack", "bytes": mr::hex(&wide[(i / 2) as usize]), "fragmented": i % 2 == 1, "rx": WIDE_RX}),
+    ));
     let mut cgram: Vec<Vec<u8>> = Vec::new();
     for p in c08_connack_grammar() {
         let b = p.encode();
@@ -1153,7 +1282,11 @@ pub fn replay_case(v: &Value) -> i32 {
         match case["phase"].as_str().unwrap_or("") {
             "as-connack" => c08_as_connack(&bytes),
             "after-connack-bytewise" => c08_after_connack(&bytes, true),
-            _ => c08_after_connack(&bytes, case["fragmented"].as_bool().unwrap_or(false)),
+            _ => c08_after_connack_rx(
+                &bytes,
+                case["fragmented"].as_bool().unwrap_or(false),
+                case["rx"].as_u64().map(|v| v as usize).unwrap_or(C08_RX),
+            ),
         }
     } else {
         match crate::direct2::replay_case(name, case) {
